@@ -1,10 +1,11 @@
 ------------------------------- MODULE Chars -------------------------------
 (***************************************************************************)
 (* Strings are sequences of Unicode code points (TLC strings are atomic).  *)
-(* Only the ASCII letters have case in this model; every other code point  *)
-(* is caseless.  That is exactly the notion `eq_ignore_ascii_case` uses,   *)
-(* and it is the notion heck uses on the ASCII identifiers of the corpora  *)
-(* (non-ASCII identifiers are kept out of the C07 domain).                 *)
+(* Two notions of case: the ASCII-only one (`eq_ignore_ascii_case`,         *)
+(* `to_ascii_lowercase`: Lo/Up/Lower/Upper/EqAci) and the Unicode-aware one  *)
+(* heck and `str::to_lowercase` use when identifiers are re-cased (U...),    *)
+(* modelled for ASCII plus a table of Latin-1 letters; identifiers outside   *)
+(* that table are kept out of the case-conversion domain.                   *)
 (***************************************************************************)
 EXTENDS Naturals, Sequences
 
@@ -15,12 +16,28 @@ IsAlpha(c) == IsUpper(c) \/ IsLower(c)
 \* identifiers may contain non-ASCII letters: alphanumeric (they never split a word), caseless in this model
 IsAlnum(c) == IsAlpha(c) \/ IsDigit(c) \/ c > 127
 
+\* A small table of non-ASCII letters with simple one-to-one case mappings, as heck / str::to_lowercase see them:
+\* Latin-1 Supplement U+00C0..U+00DE (except the multiplication sign U+00D7) <-> U+00E0..U+00FE (except U+00F7).
+\* (U+00DF sharp s and U+00FF have no one-to-one partner in the table and stay outside the identifier domain.)
+IsUpperX(c) == c \in 192..222 /\ c # 215
+IsLowerX(c) == c \in 224..254 /\ c # 247
+UIsUpper(c) == IsUpper(c) \/ IsUpperX(c)
+UIsLower(c) == IsLower(c) \/ IsLowerX(c)
+ULo(c) == IF UIsUpper(c) THEN c + 32 ELSE c
+UUp(c) == IF UIsLower(c) THEN c - 32 ELSE c
+\* identifiers of the case-conversion domain: ASCII letters, digits, underscore and the letters of the table
+InCaseTable(c) == IsAlpha(c) \/ IsDigit(c) \/ c = 95 \/ IsUpperX(c) \/ IsLowerX(c)
+
 Lo(c) == IF IsUpper(c) THEN c + 32 ELSE c
 Up(c) == IF IsLower(c) THEN c - 32 ELSE c
 
 Lower(s) == [i \in 1..Len(s) |-> Lo(s[i])]
 Upper(s) == [i \in 1..Len(s) |-> Up(s[i])]
 Capitalize(s) == IF s = <<>> THEN s ELSE <<Up(s[1])>> \o Lower(Tail(s))
+\* the Unicode-aware versions used by the case conversion (heck, str::to_lowercase / to_uppercase)
+ULower(s) == [i \in 1..Len(s) |-> ULo(s[i])]
+UUpper(s) == [i \in 1..Len(s) |-> UUp(s[i])]
+UCapitalize(s) == IF s = <<>> THEN s ELSE <<UUp(s[1])>> \o ULower(Tail(s))
 
 \* ASCII-only case folding: the relation str::eq_ignore_ascii_case decides.
 EqAci(a, b) == /\ Len(a) = Len(b)
